@@ -150,11 +150,12 @@ let rec nth_error l = function
            | [] -> None
            | _ :: l0 -> nth_error l0 n1)
 
-(** val rev : 'a1 list -> 'a1 list **)
+(** val rev_append : 'a1 list -> 'a1 list -> 'a1 list **)
 
-let rec rev = function
-| [] -> []
-| x :: l' -> app (rev l') (x :: [])
+let rec rev_append l l' =
+  match l with
+  | [] -> l'
+  | a :: l0 -> rev_append l0 (a :: l')
 
 (** val concat : 'a1 list list -> 'a1 list **)
 
@@ -293,13 +294,6 @@ module Coq_Pos =
   | XI p -> XI (XO p)
   | XO p -> XI (pred_double p)
   | XH -> XH
-
-  (** val pred_N : positive -> n **)
-
-  let pred_N = function
-  | XI p -> Npos (XO p)
-  | XO p -> Npos (pred_double p)
-  | XH -> N0
 
   type mask = Pos.mask =
   | IsNul
@@ -589,20 +583,6 @@ module Coq_Pos =
   | N0 -> p
   | Npos n1 -> iter (fun x -> XO x) p n1
 
-  (** val testbit : positive -> n -> bool **)
-
-  let rec testbit p n0 =
-    match p with
-    | XI p0 -> (match n0 with
-                | N0 -> true
-                | Npos n1 -> testbit p0 (pred_N n1))
-    | XO p0 -> (match n0 with
-                | N0 -> false
-                | Npos n1 -> testbit p0 (pred_N n1))
-    | XH -> (match n0 with
-             | N0 -> true
-             | Npos _ -> false)
-
   (** val of_succ_nat : nat -> positive **)
 
   let rec of_succ_nat = function
@@ -815,13 +795,6 @@ module N =
   let shiftr a = function
   | N0 -> a
   | Npos p -> Coq_Pos.iter div2 a p
-
-  (** val testbit : n -> n -> bool **)
-
-  let testbit a n0 =
-    match a with
-    | N0 -> false
-    | Npos p -> Coq_Pos.testbit p n0
 
   (** val of_nat : nat -> n **)
 
@@ -1308,9 +1281,9 @@ let u32_sub a b =
 (** val shl32 : n -> n -> n **)
 
 let shl32 a k =
-  N.modulo (N.shiftl a k) (Npos (XO (XO (XO (XO (XO (XO (XO (XO (XO (XO (XO
-    (XO (XO (XO (XO (XO (XO (XO (XO (XO (XO (XO (XO (XO (XO (XO (XO (XO (XO
-    (XO (XO (XO XH)))))))))))))))))))))))))))))))))
+  N.coq_land (N.shiftl a k) (Npos (XI (XI (XI (XI (XI (XI (XI (XI (XI (XI (XI
+    (XI (XI (XI (XI (XI (XI (XI (XI (XI (XI (XI (XI (XI (XI (XI (XI (XI (XI
+    (XI (XI XH))))))))))))))))))))))))))))))))
 
 (** val ofilter : ('a1 -> bool) -> 'a1 option -> 'a1 option **)
 
@@ -1652,7 +1625,11 @@ let poly =
 (** val msb32 : n -> bool **)
 
 let msb32 d =
-  N.testbit d (Npos (XI (XI (XI (XI XH)))))
+  negb
+    (N.eqb
+      (N.coq_land d (Npos (XO (XO (XO (XO (XO (XO (XO (XO (XO (XO (XO (XO (XO
+        (XO (XO (XO (XO (XO (XO (XO (XO (XO (XO (XO (XO (XO (XO (XO (XO (XO
+        (XO XH))))))))))))))))))))))))))))))))) N0)
 
 (** val crc56_step : n -> n **)
 
@@ -2959,8 +2936,8 @@ let ma_bits =
     XH)) :: (((S (S (S (S (S O))))), N0) :: (((S (S (S (S (S (S O)))))),
     (Npos (XI XH))) :: (((S (S (S (S (S (S O)))))), (Npos XH)) :: (((S (S (S
     (S (S (S O)))))), N0) :: (((S (S (S (S (S (S (S O))))))), (Npos (XI
-    XH))) :: (((S (S (S (S (S (S (S O))))))), (Npos (XO XH))) :: (((S (S (S
-    (S (S (S (S O))))))), (Npos XH)) :: (((S (S (S (S (S (S (S O))))))),
+    XH))) :: (((S (S (S (S (S (S (S O))))))), (Npos XH)) :: (((S (S (S (S (S
+    (S (S O))))))), (Npos (XO XH))) :: (((S (S (S (S (S (S (S O))))))),
     N0) :: (((S (S (S (S (S (S O)))))), (Npos (XO XH))) :: (((S (S (S (S (S
     (S O)))))), N0) :: [])))))))))))))
 
@@ -11185,16 +11162,16 @@ let rec split_lf bs cur =
   match bs with
   | [] -> (match cur with
            | [] -> []
-           | _ :: _ -> (rev cur) :: [])
+           | _ :: _ -> (rev_append cur []) :: [])
   | b :: t ->
     if N.eqb b (Npos (XO (XI (XO XH))))
-    then (rev cur) :: (split_lf t [])
+    then (rev_append cur []) :: (split_lf t [])
     else split_lf t (b :: cur)
 
 (** val strip_cr : n list -> n list **)
 
 let strip_cr l =
-  match rev l with
+  match rev_append l [] with
   | [] -> l
   | n0 :: r ->
     (match n0 with
@@ -11206,7 +11183,7 @@ let strip_cr l =
            | XO p1 ->
              (match p1 with
               | XI p2 -> (match p2 with
-                          | XH -> rev r
+                          | XH -> rev_append r []
                           | _ -> l)
               | _ -> l)
            | _ -> l)
@@ -12758,10 +12735,10 @@ let dump_table now t =
 
 let rec split_on sep l cur =
   match l with
-  | [] -> (rev cur) :: []
+  | [] -> (rev_append cur []) :: []
   | b :: t ->
     if N.eqb b sep
-    then (rev cur) :: (split_on sep t [])
+    then (rev_append cur []) :: (split_on sep t [])
     else split_on sep t (b :: cur)
 
 (** val split : n -> bytes -> bytes list **)
@@ -13980,7 +13957,7 @@ let seg_bytes rest = match rest with
 
 let rec run_segs o t segs acc =
   match segs with
-  | [] -> (true, (rev acc))
+  | [] -> (true, (rev_append acc []))
   | s :: rest ->
     (match s with
      | [] -> run_segs o t rest acc
@@ -13994,7 +13971,7 @@ let rec run_segs o t segs acc =
              let now = parse_z ts in
              (match read_lines o now t (seg_bytes body) with
               | Ok t' -> run_segs o t' rest ((dump_table now t') :: acc)
-              | Panic _ -> (false, (rev acc))))))
+              | Panic _ -> (false, (rev_append acc []))))))
 
 (** val run_h : opts -> bytes -> bytes * bytes **)
 
@@ -14143,7 +14120,7 @@ let ounwrap = function
 
 let rec run_m_go o path_m r ms acc =
   match ms with
-  | [] -> (true, (rev acc))
+  | [] -> (true, (rev_append acc []))
   | hm :: rest ->
     (match hm with
      | [] -> run_m_go o path_m r rest acc
@@ -14178,7 +14155,7 @@ let rec run_m_go o path_m r ms acc =
            | Some r' ->
              run_m_go o path_m (Some r') rest ((dump_row Z0 r') :: acc)
            | None -> run_m_go o path_m r rest acc)
-        | Panic _ -> (false, (rev acc))))
+        | Panic _ -> (false, (rev_append acc []))))
 
 (** val run_m : opts -> bytes -> bytes * bytes **)
 
